@@ -21,6 +21,11 @@ class EngineBase:
         ids = list(range(ncpu))
         if ncpu > 2 and rng.random() < 0.25:
             ids.remove(rng.choice(ids[1:]))      # hole: an offline CPU
+        r = rng.random()
+        if r < 0.08:
+            ids = list(range(12))                # two-digit CPU numbers
+        elif r < 0.16:
+            ids = [0, 5, 10, 15] if rng.random() < 0.5 else [0, 2, 10, 11]
         return {
             "cpu_fields": rng.choice([10, 10, 10, 9, 8, 7]),
             "has_rollup": rng.random() < 0.7,
